@@ -74,6 +74,11 @@ def instances(tier, seed):
     for t in TOKENS:
         for p in relevant_priors([t]):
             out.append(("core", mk([t], p, maxrank)))
+    # --- a symbolic axis on one side of the multi-axis specifier naming an axis bound on the other
+    for toks in (["a", "*v", "a+1"], ["a+1", "*v", "a"], ["a+1", "...", "a"], ["a", "...", "2*a"], ["b", "a", "*#v", "a-b"],
+                 ["a-b", "*v", "b", "a"], ["#a", "*v", "a+1"]):
+        for p in ([], ["*v"], ["a"]):
+            out.append(("core", mk(toks, p, maxrank)))
     # --- 2-token strings x (no prior, one rich prior)
     two = [x for x in itertools.product(TOKENS, repeat=2) if n_multi(x) <= 1]
     for toks in two:
